@@ -124,6 +124,8 @@ class Acc:
         self.nt_hashes = set()
         self.nt_counted = 0        # distinct by construction (enumerations)
         self.samples = []
+        self.first = None
+        self.nt_seen = 0
         self.max_samples = max_samples
         self.sample_every = sample_every
         self.hist = collections.Counter()
@@ -139,14 +141,17 @@ class Acc:
             else:
                 for k in klass:
                     self.hist[k] += n
+        if self.first is None and case is not None:
+            self.first = jsonable(sample if sample is not None else case)
         if nontrivial:
             if distinct_by_construction:
                 self.nt_counted += n
             else:
                 self.nt_hashes.add(h8(case))
+            self.nt_seen += 1
             if len(self.samples) < self.max_samples and \
-                    (self.evals % self.sample_every == 1 or
-                     self.sample_every == 1):
+                    (self.nt_seen % self.sample_every == 1 or
+                     self.sample_every == 1 or not self.samples):
                 self.samples.append(jsonable(sample if sample is not None
                                              else case))
 
@@ -166,8 +171,8 @@ class Acc:
         return bucket in self.failures
 
     def result(self):
-        if not self.samples and self.nt_hashes:
-            pass
+        if not self.samples and self.first is not None:
+            self.samples.append(self.first)
         return dict(evals=self.evals, nt_hashes=self.nt_hashes,
                     nt_counted=self.nt_counted, samples=self.samples,
                     hist=dict(self.hist), failures=self.failures,
